@@ -57,7 +57,7 @@ theorem recover_is_snapshot (s : St) (h : Reachable s) (when : Nat) (withVerify 
       | some e => (⟨some e.2, none, some e.2⟩, none) := by
   rw [doRecover_spec (reachable_sinv h).inv when withVerify o]
   unfold heldAsOf retained
-  rw [← List.filter_filter, List.head?_filter]
+  rw [find_filter]
 
 /-- the same for recovery to standard output -/
 theorem recover_stdout_is_snapshot (s : St) (h : Reachable s) (when : Nat) (withVerify : Bool) :
@@ -67,7 +67,7 @@ theorem recover_stdout_is_snapshot (s : St) (h : Reachable s) (when : Nat) (with
       | some e => (e.2, none) := by
   rw [doRecoverStdout_spec (reachable_sinv h).inv when withVerify]
   unfold heldAsOf retained
-  rw [← List.filter_filter, List.head?_filter]
+  rw [find_filter]
 
 /-- the newest backup is always held: a run that wrote a file is what `heldAsOf` returns for any
     date from its own on, until the next run (so `-k` never removes the backup just taken). -/
